@@ -1,5 +1,5 @@
 (* str.replace of a tag <<<k>>> acts segment-wise on a rendered template line (lines are rendered from a segment list:
-   literal pieces without '<' '>' and tags). *)
+   literal pieces (lit_ok: no "<<<", not beginning with '<') and tags). *)
 From Coq Require Import String Ascii List Bool Arith Lia.
 From KV Require Import Lib.Str Lib.StrOps Lib.ODict Model.Engine Model.EngineDomain Spec.RefExpand Proofs.StrProofs Proofs.EngineStr.
 Import ListNotations.
@@ -101,6 +101,30 @@ Proof.
   - rewrite no_char_app, (no_lg_no_lt body Hb). reflexivity.
 Qed.
 
+(* an occurrence of <<<k>>> begins only where exactly three '<' begin *)
+Lemma prefix_pat_bad k t : no_lg k = true -> prefixb (pat k) t = true -> bad t = true.
+Proof.
+  intros Hk H. unfold pat, OPEN3 in H. destruct t as [|c1 [|c2 [|c3 t]]]; cbn [append prefixb] in H; try (rewrite ?andb_false_r in H; discriminate).
+  apply andb_prop in H as [H1 H]. apply andb_prop in H as [H2 H]. apply andb_prop in H as [H3 H].
+  apply Ascii.eqb_eq in H1, H2, H3. subst. unfold bad, OPEN3. cbn [prefixb]. rewrite !ascii_eqb_refl. cbn [andb].
+  destruct t as [|c t]; [reflexivity|]. rewrite andb_true_r. apply negb_true_iff. apply Ascii.eqb_neq. intros E. subst c.
+  destruct k as [|d k].
+  - unfold CLOSE3 in H. cbn [append prefixb] in H. discriminate.
+  - cbn [append prefixb] in H. apply andb_prop in H as [Hd _]. apply Ascii.eqb_eq in Hd. subst d.
+    cbn [no_lg] in Hk. discriminate.
+Qed.
+
+(* a literal of the grammar is copied *)
+Lemma replace_go_lit k v rest : no_lg k = true -> forall s, nobad s rest = true ->
+  replace_go (pat k) v 0 (s ++ rest)%string = (s ++ replace_go (pat k) v 0 rest)%string.
+Proof.
+  intros Hk. induction s as [|c s IH]; intros H; [reflexivity|].
+  cbn [nobad] in H. apply andb_prop in H as [Hb Hs]. apply negb_true_iff in Hb.
+  change ((String c s ++ rest)%string) with (String c (s ++ rest)%string) in *.
+  rewrite replace_go_step; [rewrite (IH Hs); reflexivity|].
+  destruct (prefixb (pat k) (String c (s ++ rest))) eqn:E; [|reflexivity]. rewrite (prefix_pat_bad k _ Hk E) in Hb. discriminate.
+Qed.
+
 (* ---------------------------------------------------------------- on rendered lines *)
 Lemma has_eq_app n d : has_char EQ (n ++ String EQ d)%string = true.
 Proof. induction n as [|c n IH]; cbn [append has_char]; [rewrite ascii_eqb_refl; reflexivity|]. rewrite IH. apply orb_true_r. Qed.
@@ -112,24 +136,25 @@ Lemma render_tag_dflt n d : render_seg (Tag n (Some d)) = pat (n ++ String EQ d)
 Proof. unfold pat, OPEN3, CLOSE3. cbn [render_seg]. rewrite !app_assoc_s. reflexivity. Qed.
 
 Lemma replace_render k v : no_lg k = true -> has_char EQ k = false ->
-  forall l r, line_ok l = true ->
+  forall l r, line_ok l = true -> okhead r = true ->
   replace_go (pat k) v 0 (render_body l ++ r)%string = (render_body (map (put k v) l) ++ replace_go (pat k) v 0 r)%string.
 Proof.
-  intros Hk He. induction l as [|g l IH]; intros r H; [reflexivity|].
+  intros Hk He. induction l as [|g l IH]; intros r H Hr; [reflexivity|].
   cbn [line_ok forallb] in H. apply andb_prop in H as [Hg Hl]. fold (line_ok l) in Hl.
   cbn [render_body map]. rewrite !app_assoc_s.
   destruct g as [s|n [d|]]; cbn [seg_ok] in Hg.
-  - cbn [put is_named render_seg]. rewrite (replace_go_nolt k v s _ (no_lg_no_lt s Hg)), (IH r Hl). reflexivity.
+  - cbn [put is_named render_seg].
+    rewrite (replace_go_lit k v _ Hk s (nobad_lit _ (okhead_render l r Hl Hr) s (lit_ok_no3 s Hg))), (IH r Hl Hr). reflexivity.
   - apply andb_prop in Hg as [Hg Hd]. apply andb_prop in Hg as [Hn Hne].
     cbn [put is_named]. rewrite (render_tag_dflt n d).
-    rewrite replace_go_miss; [rewrite (IH r Hl); reflexivity|assumption| |].
+    rewrite replace_go_miss; [rewrite (IH r Hl Hr); reflexivity|assumption| |].
     + rewrite no_lg_app. cbn [no_lg]. rewrite Hn, Hd. reflexivity.
     + apply eqb_has_eq; [assumption|apply has_eq_app].
   - apply andb_prop in Hg as [Hn Hne]. unfold put. cbn [is_named].
     change (render_seg (Tag n None)) with (pat n).
     destruct (String.eqb n k) eqn:E.
-    + apply String.eqb_eq in E. subst n. cbn [render_seg]. rewrite replace_go_hit, (IH r Hl). reflexivity.
-    + rewrite replace_go_miss; [rewrite (IH r Hl); reflexivity|assumption|assumption|].
+    + apply String.eqb_eq in E. subst n. cbn [render_seg]. rewrite replace_go_hit, (IH r Hl Hr). reflexivity.
+    + rewrite replace_go_miss; [rewrite (IH r Hl Hr); reflexivity|assumption|assumption|].
       rewrite String.eqb_sym. exact E.
 Qed.
 
@@ -141,7 +166,7 @@ Theorem replace_all_render k v l : no_lg k = true -> has_char EQ k = false -> li
   replace_all (pat k) v (render_line l) = render_line (map (put k v) l).
 Proof.
   intros Hk He Hl. destruct (pat_nonempty k) as (c & t & E). unfold replace_all. rewrite E, <- E.
-  unfold render_line. rewrite (replace_render k v Hk He l nl_str Hl).
+  unfold render_line. rewrite (replace_render k v Hk He l nl_str Hl okhead_nl).
   change nl_str with (nl_str ++ "")%string at 1. rewrite (replace_go_nolt k v nl_str "" eq_refl). reflexivity.
 Qed.
 
@@ -149,5 +174,5 @@ Lemma put_ok k v l : no_lg v = true -> line_ok l = true -> line_ok (map (put k v
 Proof.
   intros Hv. induction l as [|g l IH]; [reflexivity|]. cbn [line_ok forallb map]. intros H. apply andb_prop in H as [Hg Hl].
   fold (line_ok l) in Hl. fold (line_ok (map (put k v) l)). rewrite (IH Hl), andb_true_r.
-  unfold put. destruct (is_named k g); [exact Hv|exact Hg].
+  unfold put. destruct (is_named k g); [exact (no_lg_lit_ok v Hv)|exact Hg].
 Qed.
